@@ -32,7 +32,7 @@ func main() {
 			fmt.Fprintln(os.Stderr, "no generator for", prop)
 			os.Exit(2)
 		}
-		e := &Emitter{sb: &strings.Builder{}, hist: map[string]int{}}
+		e := &Emitter{sb: &strings.Builder{}, hist: map[string]int{}, pendingPath: os.Args[5] + ".pending"}
 		g(newRng(seed), e, n)
 		f, err := os.Create(os.Args[5])
 		if err != nil {
